@@ -622,6 +622,9 @@ type caseT struct {
 	Exs  []exSpec `json:"-"`
 	ExS  string   `json:"extractors"`
 	root *memfs.Node
+	// again: scan a second time with the very same ScanConfig, extractor instances and file system
+	// object; the second scan must do what the first one did (no state carried between scans)
+	again bool
 }
 
 type outcome struct {
@@ -698,6 +701,28 @@ func runImpl(c *caseT) (outcome, any) {
 	if nAfter != len(out.calls) {
 		return out, fmt.Sprintf("AfterExtractorRun called %d times for %d Extract calls", nAfter, len(out.calls))
 	}
+	if c.again {
+		rec.Events = nil
+		var res2 *scalibr.ScanResult
+		p, stack := ev.Recover(func() { res2 = scalibr.New().Scan(context.Background(), cfg) })
+		if p != nil {
+			return out, fmt.Sprintf("second scan with the same configuration: panic: %v at %s", p, ev.PanicSite(stack))
+		}
+		var calls2, pkgs2 []string
+		for _, e := range rec.Of("extract") {
+			calls2 = append(calls2, e.Ex+"|"+e.Path)
+		}
+		for _, pk := range res2.Inventory.Packages {
+			pkgs2 = append(pkgs2, pk.Name+"@"+strings.Join(pk.Locations, ","))
+		}
+		var pkgs1 []string
+		for _, pk := range res.Inventory.Packages {
+			pkgs1 = append(pkgs1, pk.Name+"@"+strings.Join(pk.Locations, ","))
+		}
+		if strings.Join(calls2, ";") != strings.Join(out.calls, ";") || strings.Join(pkgs1, ";") != strings.Join(pkgs2, ";") || res2.Status.String() != out.status {
+			return out, fmt.Sprintf("second scan with the same configuration differs: first extracted %v (%s), second %v (%s)", out.calls, out.status, calls2, res2.Status)
+		}
+	}
 	return out, nil
 }
 
@@ -723,6 +748,9 @@ func check(c *caseT) (kind, detail string, nontrivial bool) {
 	m.run()
 	out, harnessErr := runImpl(c)
 	if harnessErr != nil {
+		if strings.HasPrefix(fmt.Sprint(harnessErr), "second scan") {
+			return "second-scan-with-same-configuration-differs", fmt.Sprint(harnessErr), false
+		}
 		return "panic-or-stats", fmt.Sprint(harnessErr), false
 	}
 	want := multiset(m.calls)
@@ -828,7 +856,7 @@ func validOptions(root *memfs.Node, o opts) bool {
 
 func main() {
 	scankit.Quiet()
-	r := ev.Start("C01", "exploration", 4*time.Minute, 45*time.Minute)
+	r := ev.Start("C01", "exploration", 7*time.Minute, 45*time.Minute)
 	if rp := os.Getenv("VERIF_REPLAY"); rp != "" {
 		replay(r, rp)
 		return
@@ -884,7 +912,7 @@ func main() {
 					continue
 				}
 				for _, es := range exSets {
-					c := &caseT{Tree: ts, Opts: o, Exs: es, ExS: exStr(es), root: root}
+					c := &caseT{Tree: ts, Opts: o, Exs: es, ExS: exStr(es), root: root, again: n <= 3}
 					kind, detail, nt := check(c)
 					r.Evals.Add(1)
 					if nt {
@@ -906,7 +934,7 @@ func main() {
 	r.Set("bound", map[string]any{"max_nodes_completed": completedNodes, "max_option_deviations": maxDev, "extractor_sets": len(exSets)})
 	r.Assume("reference dispatch model (this file, ~200 lines) states git's .gitignore semantics for the 5-pattern alphabet and the skip rules of the property text")
 	r.Assume("regular-expression and glob *matching* are taken from the same libraries the implementation uses; only the dispatch logic is under test")
-	r.Finish(fmt.Sprintf("every tree with <=%d labelled nodes (names a, a.d, b.txt, 'd e', -x, .gitignore(5 bodies), pkg.json; dirs, files of size 0/1/5, exec bit, symlinks to file/dir/dangling, named pipe) x every option vector with <=%d deviations from the defaults (skip list, regex, glob, gitignore, requested paths incl. dir+file and '.', sub-dir cut-off, max size 1/5, symlinks, absolute paths, ReadDirFile on/off, virtual root vs. root with a host path and absolute skip/request paths) x %d extractor sets; Scanner.Scan over memfs vs reference dispatch model; plus one directory of W entries for every W<=%d and 2^k-1,2^k,2^k+1,1.5*2^k up to %d x 3 placements x 5 directory-listing behaviours (ReadDir, ReadDirFile full batches, short batches of 1/3/100); non-trivial = some option active and >=1 extraction expected", maxNodes, maxDev, len(exSets), ev.Pick(r, 40, 300), ev.Pick(r, 1024, 4096)), completedNodes == maxNodes)
+	r.Finish(fmt.Sprintf("every tree with <=%d labelled nodes (names a, a.d, b.txt, 'd e', -x, .gitignore(5 bodies), pkg.json; dirs, files of size 0/1/5, exec bit, symlinks to file/dir/dangling, named pipe) x every option vector with <=%d deviations from the defaults (skip list, regex, glob, gitignore, requested paths incl. dir+file and '.', sub-dir cut-off, max size 1/5, symlinks, absolute paths, ReadDirFile on/off, virtual root vs. root with a host path and absolute skip/request paths) x %d extractor sets; Scanner.Scan over memfs vs reference dispatch model (trees <=3 nodes: scanned twice with the same configuration and plugin instances, second scan must equal the first); plus one directory of W entries for every W<=%d and 2^k-1,2^k,2^k+1,1.5*2^k up to %d x 3 placements x 5 directory-listing behaviours (ReadDir, ReadDirFile full batches, short batches of 1/3/100); non-trivial = some option active and >=1 extraction expected", maxNodes, maxDev, len(exSets), ev.Pick(r, 40, 300), ev.Pick(r, 1024, 4096)), completedNodes == maxNodes)
 }
 
 func replay(r *ev.Run, p string) {
